@@ -329,7 +329,11 @@ def main():
         'not_applicable': sorted(na, key=lambda x: x['property_id']),
         'notes': 'Every check: regenerate PMC/Generated from /repo, lake build, audit (#print axioms of the property '
                  'theorems + source scan), then the correspondence (corpus, exhaustive small scope, seeded random). '
-                 'Exit 0 / 1 (VIOLATION line) / 2 (harness error). Known findings: known_findings.json.',
+                 'The cheap checks are then repeated in full under python -O and with warnings as errors; model-checking '
+                 'calls have a per-call timeout and every check a watchdog (VERIF_BUDGET); every named stream must be '
+                 'non-empty. Exit 0 / 1 (VIOLATION line) / 2 (harness error). Known findings: known_findings.json. '
+                 'Companion documents: DESIGN.md, COVERAGE.md, SPEC_REVIEW.md, HARNESS_REVIEW.md; seeded/ (86 breaking '
+                 'changes, all caught), harmless/ (15 rewrites, no alarm), mutants/results.json (mutation sweep).',
     }
     with open(os.path.join(ROOT, 'MANIFEST.json'), 'w') as f:
         json.dump(m, f, indent=1)
